@@ -340,6 +340,7 @@ theorem getMsgStep_post {P : End} {l : Local} (e s : List Nat) (h : LInv P l) :
       · exact pend_harmless rfl rfl hp
       · split <;> exact sendError_post _ _ hp
       · split <;> exact sendError_post _ _ hp
+      · exact sendError_post 10 _ hp
       · split
         · exact sendError_post 10 _ hp
         · exact hp
@@ -891,11 +892,11 @@ theorem close_post {P : End} {l : Local} (h : LInv P l) : LInv P (close l).2 := 
   split
   · exact h
   · split
-    · exact h
-    · have h' : LInv P { l with me := { l.me with closeStarted := true } } :=
+    · exact linv_congr h rfl rfl rfl rfl rfl rfl rfl rfl rfl rfl
+    · have h' : LInv P { l with me := { l.me with refCount := l.me.refCount - 1 } } :=
         linv_congr h rfl rfl rfl rfl rfl rfl rfl rfl rfl rfl
       have hr := closeBody_post h'
-      generalize closeBody { l with me := { l.me with closeStarted := true } } = y at hr
+      generalize closeBody { l with me := { l.me with refCount := l.me.refCount - 1 } } = y at hr
       obtain ⟨res, l1⟩ := y
       cases res with
       | stall => exact hr
@@ -958,6 +959,7 @@ theorem runLocal_inv {P : End} (op : Op) (ho : op.Honest) {l : Local} (h : LInv 
     generalize close l = x at this ⊢
     obtain ⟨res, l1⟩ := x
     cases res <;> exact this
+  | makefile => exact linv_congr h rfl rfl rfl rfl rfl rfl rfl rfl rfl rfl
   | inject m => exact sendRaw_getD_inv ho.1 ho.2 h
   | kill k => exact absurd ho id
   | abort => exact absurd ho id
